@@ -169,14 +169,14 @@ specialise(
     "C06",
     "a.channel",
     c06_channel,
-    {"ch": list(range(14)), "rp": [0, 1, 2, 3], "n": [3]},
-    reach_if=lambda fx: fx["rp"] == 0,
+    {"ch": list(range(14)), "rp": [0, 3], "n": [3]},
+    reach_if=lambda fx: fx["rp"] == 0 and fx["ch"] == 0,
     tiers=("thorough",),
     timeout=2400,
     kernel=K,
     shims=("S1", "S2", "S3", "S4", "S5", "S9", "S10"),
     symbolic="cell text of 3 symbolic code points; first over the range pattern, the others over U+0021-U+167F",
-    bounds="text length 3 (covers ']]>' and '&lt' style sequences); first-character range fixed per instance over U+0021-U+167F / U+2030-U+2FFF / U+3001-U+D7FF / astral",
+    bounds="text length 3 (covers ']]>' and '&lt' style sequences); first-character range fixed per instance over U+0021-U+167F / astral",
     weight=1200,
 )
 
